@@ -13,6 +13,7 @@ import (
 	"encoding/hex"
 	"errors"
 	"fmt"
+	"math/big"
 	"math/bits"
 	"net"
 	"os"
@@ -321,4 +322,20 @@ func VerifSELFRegexp() {
 		pat := regexp.MustCompile("^" + regexp.QuoteMeta("a.b") + "$")
 		nd.Assert("self.re.quotemeta", pat.MatchString("a.b") && !pat.MatchString("axb"))
 	}
+}
+
+// math/big with its portable kernels (build tag math_big_pure_go on the
+// executor side only; the native build uses the assembly kernels).
+func VerifSELFBig() {
+	a := nd.Uint64("big.a")
+	b := nd.Uint64("big.b")
+	x := new(big.Int).SetUint64(a)
+	y := new(big.Int).SetUint64(b)
+	sum := new(big.Int).Add(x, y)
+	back := new(big.Int).Sub(sum, y)
+	nd.Reach("self.big.done")
+	nd.Assert("self.big.add-sub", back.Cmp(x) == 0 && back.IsUint64() && back.Uint64() == a)
+	nd.Assert("self.big.cmp", (x.Cmp(y) < 0) == (a < b))
+	p := new(big.Int).Mul(big.NewInt(1000), big.NewInt(1000))
+	nd.Assert("self.big.concrete", p.String() == "1000000")
 }
